@@ -1380,8 +1380,7 @@ class LangServer:
             if file_obj is not None:
                 ast_old = file_obj.ast
                 if ast_old is not None:
-                    for key in ast_old.global_dict:
-                        self.obj_tree.pop(key, None)
+                    self._remove_file_globals(ast_old, filepath)
                 # Forget the file and everything other files had linked to it
                 self.workspace.pop(filepath, None)
                 for _, other_obj in self.workspace.items():
@@ -1408,6 +1407,22 @@ class LangServer:
                 file_obj.ast.resolve_links(self.obj_tree, self.link_version)
         if not self.disable_diagnostics:
             self.send_diagnostics(uri)
+
+    def _remove_file_globals(self, ast_old: FortranAST, filepath: str):
+        """Remove the top-level objects of a file from the object tree"""
+        for key in ast_old.global_dict:
+            entry = self.obj_tree.get(key)
+            # The name may (also) be declared by another file, which owns the entry
+            if entry is None or entry[1] != filepath:
+                continue
+            self.obj_tree.pop(key)
+            # The last file declaring the name wins, as during initialization
+            for other_path, other_file in self.workspace.items():
+                if other_path == filepath or other_file.ast is None:
+                    continue
+                other_obj = other_file.ast.global_dict.get(key)
+                if other_obj is not None:
+                    self.obj_tree[key] = [other_obj, other_path]
 
     def update_workspace_file(
         self,
@@ -1448,8 +1463,7 @@ class LangServer:
         # Remove old objects from tree
         ast_old = file_obj.ast
         if ast_old is not None:
-            for key in ast_old.global_dict:
-                self.obj_tree.pop(key, None)
+            self._remove_file_globals(ast_old, filepath)
         # Add new file to workspace
         file_obj.ast = ast_new
         if filepath not in self.workspace:
